@@ -501,9 +501,29 @@ func countTree(c *vlib.Ctx, ld *loaded) {
 			}
 		}
 	}
-	pruned := 0
+	pruned, off := 0, 0
+	rootHasCrit := len(ld.root.critLeafStates()) > 0
 	for _, n := range ld.nodes {
 		pruned += n.Pruned
+		off += n.OffKids
+		if n.isLeaf() || n == ld.root {
+			continue
+		}
+		if n.OffCritKids > 0 {
+			c.Count("aggregators_with_disabled_critical_child", 1)
+			if len(n.critLeafStates()) == 0 {
+				// the regression shape: what is left below n is non-critical only
+				c.Count("aggregators_left_noncritical_by_disabled_critical_child", 1)
+				if rootHasCrit {
+					c.Count("aggregators_left_noncritical_by_disabled_critical_child_with_critical_cousins", 1)
+					c.Count(fmt.Sprintf("disabled_critical_shape_depth_%d", strings.Count(n.Key, "/")), 1)
+				}
+			}
+		}
+	}
+	if off > 0 {
+		c.Count("trees_with_disabled_roles", 1)
+		c.Count("disabled_roles", int64(off))
 	}
 	if pruned > 0 {
 		c.Count("trees_with_pruned_empty_subtrees", 1)
